@@ -62,6 +62,7 @@ PROPS["C01"] = dict(
         "Zrnt.Proofs.C01.payload_eq",
         "Zrnt.Proofs.C01.exit_eq",
         "Zrnt.Proofs.C01.deposit_eq",
+        "Zrnt.Proofs.C01.withdrawalsApply_eq",
         "Zrnt.Proofs.C01.proposer_frame",
         "Zrnt.Proofs.C01.WF_preserved_block_partial",
     ],
@@ -80,10 +81,10 @@ PROPS["C01"] = dict(
     assumptions=ASSUME_BLOCK + [
         "M_block_refines_S is proved only in part. Whole operations proved M = S (accept/reject and post-state, M = the code-shaped model "
         "lean/Zrnt/Beacon/Impl/BlockM.lean that is also the model column of c01/c03): header, randao, eth1 vote, voluntary exit (end to end), "
-        "deposit, BLS-to-execution change, execution payload of all three forks; pieces: ZigZagJoin, exit-queue scan, withdrawals sweep, "
+        "deposit, BLS-to-execution change, execution payload of all three forks, the withdrawals state update (against the pure core the monadic S is cross-checked with at run time); pieces: ZigZagJoin, exit-queue scan, withdrawals sweep, "
         "slashable predicate, indexed-attestation structure check, attestation timing. NOT proved (correspondence Go = M = S only): "
-        "process_attestation of every fork, slash_validator and the two slashings as whole operations, sync aggregate, the withdrawals' "
-        "balance/cursor update, the composition into process_block (needs the frame lemma proposer_frame per operation) and block signature/state root",
+        "process_attestation of every fork, slash_validator and the two slashings as whole operations, sync aggregate, "
+        "the composition into process_block (needs the frame lemma proposer_frame per operation) and block signature/state root",
         "the round-2 theorems take the EpochsContext as an abstract record with hypotheses that C07 (proposer, committees), C08 (active count, stake) "
         "and C16 (pubkey cache = registry) establish for a real context",
         "theorem hypotheses: index lists hold uint64 values below the ZigZagJoin end marker 2^64-1; activeCount is the number of active validators "
